@@ -248,4 +248,87 @@ def seqSorted (cmp : Cmp3 ε α) (v : List α) : Res ε α (Option (List α)) :=
   ((isSortedPre cmp v 0).failCtx v []).bind fun sorted n =>
     if sorted then .ok none n else (trySort (ltOf cmp) v n).map some
 
+/-! ### `TryHeap` (try_heap.rs): a binary max-heap w.r.t. `is_le`, arrays read as lists with index
+operations.  An index the Rust code would read out of bounds (`debug_assert!` in `Hole::get`) is a
+`panic`.  A failing comparison leaves the array with the hole filled again (`Drop for Hole`). -/
+namespace Heap
+
+/-- `sift_up(start, pos)`: `data` has a hole at `pos`, `elt` is the element taken out.
+Payload: the array with the hole filled, and the final position. -/
+def siftUp (le : Cmp ε α) (start : Nat) : Nat → List α → α → Nat → Nat → Res ε α (List α × Nat)
+  | 0, _, _, _, _ => .panic
+  | fuel + 1, data, elt, pos, n =>
+    if pos > start then
+      let parent := (pos - 1) / 2
+      match data[parent]? with
+      | none => .panic
+      | some p =>
+        match le n elt p with
+        | .error e => .fail e (data.set pos elt) (n + 1)
+        | .ok true => .ok (data.set pos elt, pos) (n + 1)
+        | .ok false => siftUp le start fuel (data.set pos p) elt parent (n + 1)
+    else .ok (data.set pos elt, pos) n
+
+/-- the `while child <= end.saturating_sub(2)` loop of `sift_down_to_bottom`; payload: array (hole
+not yet filled), hole position, next child -/
+def siftDownLoop (le : Cmp ε α) (elt : α) : Nat → List α → Nat → Nat → Nat → Res ε α (List α × Nat × Nat)
+  | 0, _, _, _, _ => .panic
+  | fuel + 1, data, hole, child, n =>
+    if child ≤ data.length - 2 then
+      match data[child]?, data[child + 1]? with
+      | some l, some r =>
+        match le n l r with
+        | .error e => .fail e (data.set hole elt) (n + 1)
+        | .ok c =>
+          let ch := if c then child + 1 else child
+          match data[ch]? with
+          | none => .panic
+          | some v => siftDownLoop le elt fuel (data.set hole v) ch (2 * ch + 1) (n + 1)
+      | _, _ => .panic
+    else .ok (data, hole, child) n
+
+/-- `sift_down_to_bottom(pos)` (only ever called with `pos = 0` on a non-empty heap) -/
+def siftDownToBottom (le : Cmp ε α) (data : List α) (pos : Nat) (n : Nat) : Res ε α (List α) :=
+  match data[pos]? with
+  | none => .panic
+  | some elt =>
+    (siftDownLoop le elt (data.length + 1) data pos (2 * pos + 1) n).bind fun st n1 =>
+      let (d, hole, child) := st
+      if d.length = 0 then .panic    -- `end - 1` underflows
+      else
+        let (d, hole) := if child = d.length - 1 then
+            (match d[child]? with | some v => (d.set hole v, child) | none => (d, hole))
+          else (d, hole)
+        (siftUp le pos (hole + 1) d elt hole n1).map (·.1)
+
+/-- `push(item)` -/
+def push (le : Cmp ε α) (data : List α) (item : α) (n : Nat) : Res ε α (List α) :=
+  (siftUp le 0 (data.length + 1) (data ++ [item]) item data.length n).map (·.1)
+
+/-- `pop()`: payload `(popped item, remaining array)`; a failure reports the remaining array (the
+element taken out is dropped together with the error) -/
+def pop (le : Cmp ε α) (data : List α) (n : Nat) : Res ε α (Option α × List α) :=
+  match data.getLast? with
+  | none => .ok (none, []) n
+  | some last =>
+    let d := data.dropLast
+    match d with
+    | [] => .ok (some last, []) n
+    | root :: _ => (siftDownToBottom le (d.set 0 last) 0 n).map (fun d' => (some root, d'))
+
+def pushAll (le : Cmp ε α) : List α → List α → Nat → Res ε α (List α)
+  | data, [], n => .ok data n
+  | data, x :: xs, n => (push le data x n).bind fun d n' => pushAll le d xs n'
+
+/-- `n` pops (stopping early when the heap is empty); payload `(popped in order, remaining array)` -/
+def popN (le : Cmp ε α) : Nat → List α → List α → Nat → Res ε α (List α × List α)
+  | 0, data, acc, n => .ok (acc.reverse, data) n
+  | k + 1, data, acc, n =>
+    (pop le data n).bind fun r n' =>
+      match r.1 with
+      | none => .ok (acc.reverse, r.2) n'
+      | some x => popN le k r.2 (x :: acc) n'
+
+end Heap
+
 end XrayModel.Sort
